@@ -136,8 +136,22 @@ func (x *Exec) stmt(st *State, s ast.Stmt) *Flow {
 	case *ast.EmptyStmt:
 		return newFlow(st)
 	case *ast.GoStmt:
-		x.abstractNote(s, "go statement dropped (concurrency: abstracted); variables assigned by closures are havocked")
-		x.havocClosureAssigned(st)
+		x.abstractNote(s, "go statement dropped (concurrency: abstracted); variables assigned by the started closure are havocked")
+		if lit, ok := ast.Unparen(s.Call.Fun).(*ast.FuncLit); ok {
+			// only what this goroutine's own body assigns (other function literals of the function are not started here)
+			var objs []types.Object
+			for o := range x.assignedInLit(lit) {
+				if _, ok := st.vars[o]; ok {
+					objs = append(objs, o)
+				}
+			}
+			sort.Slice(objs, func(i, j int) bool { return objs[i].Pos() < objs[j].Pos() })
+			for _, o := range objs {
+				x.havocVar(st, o)
+			}
+		} else {
+			x.havocClosureAssigned(st)
+		}
 		return newFlow(st)
 	case *ast.SendStmt:
 		x.expr(st, s.Value)
@@ -161,12 +175,59 @@ func (x *Exec) isPanic(call *ast.CallExpr) bool {
 	return false
 }
 
+// closureAssignedBefore: variables assigned by function literals that can already exist at source position pos (created
+// earlier in the source, or anywhere inside the outermost loop that is being executed).
+func (x *Exec) closureAssignedBefore(pos token.Pos) map[types.Object]bool {
+	if x.noClosureExpand {
+		return map[types.Object]bool{}
+	}
+	if x.body == nil || !pos.IsValid() {
+		return x.closureAssigned
+	}
+	limit := pos
+	if len(x.loopNodes) > 0 {
+		if e := x.loopNodes[0].End(); e > limit {
+			limit = e
+		}
+	}
+	out := map[types.Object]bool{}
+	for _, l := range directLits(x.body) {
+		if l.Pos() < limit {
+			for o := range x.assignedInLitShallow(l) {
+				out[o] = true
+			}
+		}
+	}
+	return out
+}
+
+// havocClosureAssigned havocs the variables assigned by function literals that may already exist and may be invoked by
+// code we do not see (an escaped literal). A literal can only run after it has been created: literals that appear later in
+// the source than the current point are ignored, unless the current point is inside a loop (an earlier iteration may have
+// created them), in which case everything up to the end of the outermost enclosing loop counts.
 func (x *Exec) havocClosureAssigned(st *State) {
 	if !x.litEscapes {
 		return
 	}
+	limit := x.curPos
+	if len(x.loopNodes) > 0 {
+		if e := x.loopNodes[0].End(); e > limit {
+			limit = e
+		}
+	}
+	assigned := x.closureAssigned
+	if limit.IsValid() && x.body != nil {
+		assigned = map[types.Object]bool{}
+		for _, l := range directLits(x.body) {
+			if l.Pos() < limit {
+				for o := range x.assignedInLit(l) {
+					assigned[o] = true
+				}
+			}
+		}
+	}
 	var objs []types.Object
-	for o := range x.closureAssigned {
+	for o := range assigned {
 		if _, ok := st.vars[o]; ok {
 			objs = append(objs, o)
 		}
@@ -618,12 +679,12 @@ func (x *Exec) assignedIn(nodes ...ast.Node) map[types.Object]bool {
 			case *ast.CallExpr:
 				unknown := x.callMayModify(s, add)
 				if unknown {
-					for o := range x.closureAssigned {
+					for o := range x.closureAssignedBefore(s.Pos()) {
 						out[o] = true
 					}
 				}
 			case *ast.GoStmt:
-				for o := range x.closureAssigned {
+				for o := range x.closureAssignedBefore(s.Pos()) {
 					out[o] = true
 				}
 			case *ast.FuncLit:
@@ -774,8 +835,10 @@ func (x *Exec) loop(st *State, node ast.Stmt, ord int, label string, mod map[typ
 	}
 	x.runGhost(bst, spec.Head, fmt.Sprintf("loop%d-head", ord), node)
 	x.loopCur = append(x.loopCur, ord)
+	x.loopNodes = append(x.loopNodes, node)
 	bf := x.block(bst, body.List)
 	x.loopCur = x.loopCur[:len(x.loopCur)-1]
+	x.loopNodes = x.loopNodes[:len(x.loopNodes)-1]
 	out := &Flow{brk: map[string][]*State{}, cont: map[string][]*State{}}
 	out.rets = append(out.rets, bf.rets...)
 	exits := []*State{exit}
